@@ -241,7 +241,7 @@ pub fn replay(j: &J) -> Result<Acc, String> {
     let fl = j.get("flavour").and_then(|x| x.as_str()).unwrap_or("checked");
     if fl != flavour() {
         if let Ok(bin) = std::env::var("VERIF_PLAIN_BIN") {
-            let tmp = format!("/verif/replays/.c13-replay-{}.json", std::process::id());
+            let tmp = format!("{}/replays/.c13-replay-{}.json", crate::report::verif_dir(), std::process::id());
             std::fs::write(&tmp, json::obj(vec![("property", json::s("C13")), ("replay", j.clone())]).to_string()).map_err(|e| e.to_string())?;
             let w = run_workers(&bin, vec![vec!["replay".into(), tmp.clone(), "--worker".into()]], 1);
             let _ = std::fs::remove_file(&tmp);
